@@ -42,6 +42,10 @@ pub fn eval(c: &Case, obs: &mut Obs) -> Result<(), String> {
         }
     };
     let st = super::c01::validate_from(&t, len, 16)?;
+    // "a malformed length ... leads to an error or a controlled panic"
+    if (len < 16 || len % 8 != 0) && st.loaded {
+        return Err(format!("load() accepted a header that declares the malformed length {len}"));
+    }
     obs.class(if st.loaded { "loads" } else { "load-fails" });
     let getter_hit = t.lines.iter().any(|(k, v)| k.starts_with("g.") && matches!(v, Val::Ext(..)));
     let walk_panics = t.lines.iter().any(|(k, v)| k.starts_with('w') && k[1..].parse::<usize>().is_ok() && v.is_panic());
